@@ -59,11 +59,15 @@ const (
 	// that first-time creation of one instrument (and of one meter) happens concurrently and the pipelines
 	// hold two scopes (after seeded changes C02-i and C12-i)
 	kCounterLate
+	// a second explicit-bucket histogram with the same boundaries, created right after the first one: when an
+	// earlier instrument of the scope starts reporting, each of the two moves into the slot of a reused
+	// ResourceMetrics that the other one filled in the previous collection (after seeded change C08-j)
+	kHistJ
 )
 
 //go:norace
 func (k instKind) String() string {
-	return [...]string{"counter_i", "counter_f", "updown_i", "hist_i", "gauge_i", "hist_exp", "obs_counter", "obs_updown", "obs_gauge", "obs_counter_f", "counter_late"}[k]
+	return [...]string{"counter_i", "counter_f", "updown_i", "hist_i", "gauge_i", "hist_exp", "obs_counter", "obs_updown", "obs_gauge", "obs_counter_f", "counter_late", "lat_j"}[k]
 }
 
 //go:norace
@@ -237,6 +241,8 @@ type world struct {
 	ops        []*simdrv.OpCall
 	bounds     []float64
 	interval   time.Duration
+	// float64 instead of int64 variants of the up-down counter, explicit histogram, gauge, observable up-down counter + gauge
+	fUpDown, fHist, fGauge, fObs bool
 }
 
 type regEv struct {
@@ -322,6 +328,21 @@ func extract(rm *metricdata.ResourceMetrics) map[string]map[string]point {
 			case metricdata.Gauge[int64]:
 				for _, dp := range d.DataPoints {
 					put(setKeyOf(dp.Attributes), point{kind: "gauge", isInt: true, ival: dp.Value, sum: float64(dp.Value), start: dp.StartTime, time: dp.Time})
+				}
+			case metricdata.Gauge[float64]:
+				for _, dp := range d.DataPoints {
+					put(setKeyOf(dp.Attributes), point{kind: "gauge", ival: int64(dp.Value), sum: dp.Value, start: dp.StartTime, time: dp.Time})
+				}
+			case metricdata.Histogram[float64]:
+				for _, dp := range d.DataPoints {
+					p := point{kind: "hist", ival: int64(dp.Sum), sum: dp.Sum, count: dp.Count, buckets: append([]uint64{}, dp.BucketCounts...), bounds: append([]float64{}, dp.Bounds...), start: dp.StartTime, time: dp.Time, temporal: d.Temporality.String()}
+					if v, ok := dp.Min.Value(); ok {
+						p.min, p.hasMin = v, true
+					}
+					if v, ok := dp.Max.Value(); ok {
+						p.max = v
+					}
+					put(setKeyOf(dp.Attributes), p)
 				}
 			case metricdata.Histogram[int64]:
 				for _, dp := range d.DataPoints {
@@ -436,7 +457,7 @@ func (engine) Body(r *simdrv.Run) {
 	w.bounds = []float64{1, 4, 16, 256, 65536}
 
 	// instruments
-	kinds := []instKind{kCounterI, kCounterF, kUpDownI, kHistI, kGaugeI, kHistExpF, kObsCounter, kObsUpDown, kObsGauge, kObsCounterF, kCounterLate}
+	kinds := []instKind{kCounterI, kCounterF, kUpDownI, kHistI, kGaugeI, kHistExpF, kObsCounter, kObsUpDown, kObsGauge, kObsCounterF, kCounterLate, kHistJ}
 	expMaxSize := []int32{4, 4, 8, 160}[r.Cfg(4)]
 	expMaxScale := []int32{0, 3, 20}[r.Cfg(3)]
 	for i, k := range kinds {
@@ -466,9 +487,11 @@ func (engine) Body(r *simdrv.Run) {
 		}
 		w.insts = append(w.insts, in)
 	}
-	syncInsts := []int{0, 1, 2, 3, 4, 5, 5}
+	w.fUpDown, w.fHist, w.fGauge, w.fObs = r.Cfg(2) == 1, r.Cfg(2) == 1, r.Cfg(2) == 1, r.Cfg(2) == 1
+	r.Res.Config["float-variants"] = fmt.Sprintf("updown=%v hist=%v gauge=%v obs=%v", w.fUpDown, w.fHist, w.fGauge, w.fObs)
+	syncInsts := []int{0, 1, 2, 3, 4, 5, 5, 11}
 	if r.Cfg(2) == 1 {
-		syncInsts = []int{0, 1, 2, 3, 4, 5, 5, 10, 10, 10}
+		syncInsts = []int{0, 1, 2, 3, 4, 5, 5, 11, 10, 10, 10}
 	}
 	// recorder plans
 	nRec := 1 + r.Cfg(4)
@@ -478,8 +501,8 @@ func (engine) Body(r *simdrv.Run) {
 		for i := 0; i < n; i++ {
 			in := w.insts[syncInsts[r.Cfg(len(syncInsts))]]
 			op := &recOp{inst: in.idx, set: attrSet{a: r.Cfg(4) - 1, b: r.Cfg(3) - 1}, task: fmt.Sprintf("rec%d", t)}
-			if in.nextBit >= 28 {
-				continue
+			if in.nextBit >= 28 || w.fUpDown && in.kind == kUpDownI && in.nextBit >= 11 {
+				continue // (a float64 sum of +2^0..2^10 and -2^30..-2^40 is exact)
 			}
 			if w.limit == 0 && in.sumLike() && in.kind != kHistI && r.Cfg(10) == 0 {
 				// Add(0): kept apart from the bit-coded measurements (after seeded change C02-e)
@@ -644,14 +667,51 @@ func (engine) Body(r *simdrv.Run) {
 	meter := mp.Meter("metricsim")
 	ci, _ := meter.Int64Counter("counter_i")
 	cf, _ := meter.Float64Counter("counter_f")
-	ui, _ := meter.Int64UpDownCounter("updown_i")
-	hi, _ := meter.Int64Histogram("hist_i", metric.WithExplicitBucketBoundaries(w.bounds...))
-	gi, _ := meter.Int64Gauge("gauge_i")
+	// The up-down counter, the explicit-bucket histogram, the gauge and the two observable kinds whose callbacks
+	// are registered at run time are int64 or float64 instruments, drawn per run and per instrument (same names,
+	// same integral values): the float64 entry points of the meter, of the instruments and of the observer are
+	// separate code from the int64 ones.
+	var ui metric.Int64UpDownCounter
+	var uf metric.Float64UpDownCounter
+	var hi metric.Int64Histogram
+	var hf metric.Float64Histogram
+	var gi metric.Int64Gauge
+	var gf metric.Float64Gauge
+	if w.fUpDown {
+		uf, _ = meter.Float64UpDownCounter("updown_i")
+	} else {
+		ui, _ = meter.Int64UpDownCounter("updown_i")
+	}
+	if w.fHist {
+		hf, _ = meter.Float64Histogram("hist_i", metric.WithExplicitBucketBoundaries(w.bounds...))
+	} else {
+		hi, _ = meter.Int64Histogram("hist_i", metric.WithExplicitBucketBoundaries(w.bounds...))
+	}
+	hj, _ := meter.Int64Histogram("lat_j", metric.WithExplicitBucketBoundaries(w.bounds...))
+	if w.fGauge {
+		gf, _ = meter.Float64Gauge("gauge_i")
+	} else {
+		gi, _ = meter.Int64Gauge("gauge_i")
+	}
 	he, _ := meter.Float64Histogram("hist_exp")
 	oc, _ := meter.Int64ObservableCounter("obs_counter")
-	ou, _ := meter.Int64ObservableUpDownCounter("obs_updown")
-	og, _ := meter.Int64ObservableGauge("obs_gauge")
-	obsInst := map[int]metric.Int64Observable{6: oc, 7: ou, 8: og}
+	obsInst := map[int]metric.Int64Observable{6: oc}
+	obsInstF := map[int]metric.Float64Observable{}
+	if w.fObs {
+		ouf, _ := meter.Float64ObservableUpDownCounter("obs_updown")
+		ogf, _ := meter.Float64ObservableGauge("obs_gauge")
+		obsInstF[7], obsInstF[8] = ouf, ogf
+	} else {
+		ou, _ := meter.Int64ObservableUpDownCounter("obs_updown")
+		og, _ := meter.Int64ObservableGauge("obs_gauge")
+		obsInst[7], obsInst[8] = ou, og
+	}
+	obsAny := func(idx int) metric.Observable {
+		if f, ok := obsInstF[idx]; ok {
+			return f
+		}
+		return obsInst[idx]
+	}
 	// the float64 observable counter gets its callback at creation: always registered, routed per reader
 	ocf := w.insts[9]
 	_, _ = meter.Float64ObservableCounter("obs_counter_f", metric.WithFloat64Callback(func(_ context.Context, o metric.Float64Observer) error {
@@ -695,7 +755,11 @@ func (engine) Body(r *simdrv.Run) {
 			}
 			for _, s := range asyncSets {
 				if v, ok := asyncValue(in, s, w.cycle); ok {
-					o.ObserveInt64(obsInst[in.idx], v, metric.WithAttributes(s.kvs()...))
+					if f, ok := obsInstF[in.idx]; ok {
+						o.ObserveFloat64(f, float64(v), metric.WithAttributes(s.kvs()...))
+					} else {
+						o.ObserveInt64(obsInst[in.idx], v, metric.WithAttributes(s.kvs()...))
+					}
 					c.observed[in.idx][s.key(nil)] = v
 				}
 			}
@@ -703,7 +767,7 @@ func (engine) Body(r *simdrv.Run) {
 		}
 	}
 	register := func(idx int) {
-		reg, err := meter.RegisterCallback(mkCallback(w.insts[idx]), obsInst[idx])
+		reg, err := meter.RegisterCallback(mkCallback(w.insts[idx]), obsAny(idx))
 		if err == nil {
 			regHandles[idx] = reg
 		}
@@ -750,18 +814,48 @@ func (engine) Body(r *simdrv.Run) {
 			}
 			h.Add(ctx, float64(op.value()), attrs)
 		case kUpDownI:
+			if w.fUpDown {
+				h := uf
+				if again {
+					h, _ = meter.Float64UpDownCounter("updown_i")
+				}
+				h.Add(ctx, float64(op.value()), attrs)
+				break
+			}
 			h := ui
 			if again {
 				h, _ = meter.Int64UpDownCounter("updown_i")
 			}
 			h.Add(ctx, op.value(), attrs)
 		case kHistI:
+			if w.fHist {
+				h := hf
+				if again {
+					h, _ = meter.Float64Histogram("hist_i", metric.WithExplicitBucketBoundaries(w.bounds...))
+				}
+				h.Record(ctx, float64(op.value()), attrs)
+				break
+			}
 			h := hi
 			if again {
 				h, _ = meter.Int64Histogram("hist_i", metric.WithExplicitBucketBoundaries(w.bounds...))
 			}
 			h.Record(ctx, op.value(), attrs)
+		case kHistJ:
+			h := hj
+			if again {
+				h, _ = meter.Int64Histogram("lat_j", metric.WithExplicitBucketBoundaries(w.bounds...))
+			}
+			h.Record(ctx, op.value(), attrs)
 		case kGaugeI:
+			if w.fGauge {
+				h := gf
+				if again {
+					h, _ = meter.Float64Gauge("gauge_i")
+				}
+				h.Record(ctx, float64(op.gaugeVal), attrs)
+				break
+			}
 			h := gi
 			if again {
 				h, _ = meter.Int64Gauge("gauge_i")
